@@ -140,7 +140,7 @@ func runC13(c *Ctx) {
 		"(2) descent-orientation: insert and search descend left exactly when the probe key compares below the node's key and right when above; (3) successor-transfer: when delete unlinks the successor of a node with two children, every payload field (Key, Val) of the successor is moved into the node, delete returns the unlinked node, and Delete compacts the node list for that returned node; " +
 		"(4) operation-routing: each runtime entry point the back end calls (mapMake, mapUpdate, mapLookup, mapDelete, mapLen, mapNext) exists with the arity the back end uses and forwards to the method of its role; (5) comparator-completeness: the generated struct key comparison compares every field unconditionally, in order; " +
 		"(6) nil-guard-target: every `if X.Left != this.NIL {…}` (or .Right) in map.wa works on the child it tested, not on the other one; (7) interface-boxing-guard: every MakeInterface site of the generated map helpers is the else arm of the `is interface` test of that operand's type, with ChangeInterface in the then arm. " +
-		"NOT decided: the red-black rebalancing itself, iteration under mutation, hashing-free complexity."
+		"(8) range-stable-under-delete: the iterator does not walk by slot number a node list that Delete compacts by moving elements (known finding). NOT decided: the red-black rebalancing itself, insertion during iteration, hashing-free complexity."
 	c.Trusted = []string{"the repository's Wa parser as front end", "go/packages, go/types for the Go side of rule 5"}
 	std := LoadWaStd(c, "mirror-symmetry")
 	var mf *waFile
@@ -211,6 +211,7 @@ func runC13(c *Ctx) {
 	}
 
 	c13NilGuardTarget(c, std, mf)
+	c13RangeUnderDelete(c, std, mf, fns)
 	c13CompareAntisymmetric(c)
 
 	// (2) descent orientation
